@@ -109,7 +109,8 @@ def fix_structure(ctx, rule='A5'):
                              set(), 'delete-only-when-none', 'the entry is deleted only when the value is None')
     fr = ctx.fn(f'{GP}.free_des_var')
     cs = calls(fr, 'fix_des_var')
-    ok = bool(cs) and len(cs[0].args) == 2 and isinstance(cs[0].args[1], ast.Constant) and cs[0].args[1].value is None
+    v_ = argv(cs[0], 'value', 1) if cs else None
+    ok = bool(cs) and isinstance(v_, ast.Constant) and v_.value is None
     ctx.ob(rule, fkey(fr, rule, 'free-is-fix-none'), ok, fr.where,
            'free_des_var(dv) is fix_des_var(dv, None) (one code path for bookkeeping and invalidation)',
            short(cs[0]) if cs else 'no call')
